@@ -116,7 +116,7 @@ class Searches:
         elif method == PathSearchMethods.REGEX:
             try:
                 matcher = re.compile(needle)
-            except re.error as ex:
+            except (re.error, OverflowError) as ex:
                 raise YAMLPathException(
                     "Invalid Regular Expression ({})".format(ex),
                     str(needle)) from ex
